@@ -15,7 +15,10 @@
 (***************************************************************************)
 EXTENDS Garble
 
-CONSTANTS MaxFaults    \* number of Corrupt steps allowed (0 for C02/C04)
+CONSTANTS MaxFaults,   \* number of Corrupt steps allowed (0 for C02/C04)
+          Deviating,   \* TRUE: the evaluator may name ANY wire range for the OT and pick any choice bits (C04)
+          RangeRule    \* "exact" (as coded: offset = |garbler input| and count = |evaluator input|)
+                       \* | "end" (deviation: the range only has to end at the last input wire)
 
 VARIABLES n0,        \* the garbler's input wires are 0..n0-1, the evaluator's n0..NIn-1
           nout,      \* outputs are the last nout wires
@@ -94,15 +97,18 @@ ERecv ==
 
 ESendRange ==
     /\ epc = "sendrange"
-    /\ chEG' = <<F("offset", 0, n0), F("count", 0, N1)>>
+    /\ IF Deviating
+       THEN \E off \in 0..NIn : \E cnt \in 0..(NIn - off) : chEG' = <<F("offset", 0, off), F("count", 0, cnt)>>
+       ELSE chEG' = <<F("offset", 0, n0), F("count", 0, N1)>>
     /\ epc' = "otrecv"
     /\ UNCHANGED <<vars, n0, nout, gpc, chGE, otbox, otFault, faults, nx, sent, erange, gout, eout, outcome>>
 
 \* Garbler: `if offset != Inputs[0].Bits || count != Inputs[1].Bits { error }`, then OT.Send
 GRange ==
     /\ gpc = "range" /\ Len(chEG) >= 2 /\ chEG[1].k = "offset"
-    /\ IF chEG[1].v = n0 /\ chEG[2].v = N1
-       THEN /\ otbox' = [w \in n0..(NIn - 1) |-> lab[w]]
+    /\ IF (RangeRule = "exact" /\ chEG[1].v = n0 /\ chEG[2].v = N1)
+          \/ (RangeRule = "end" /\ chEG[1].v + chEG[2].v = NIn)
+       THEN /\ otbox' = [w \in chEG[1].v..(chEG[1].v + chEG[2].v - 1) |-> lab[w]]
             /\ gpc' = "outs"
             /\ UNCHANGED outcome
        ELSE /\ gpc' = "err" /\ outcome' = "error" /\ UNCHANGED otbox
@@ -112,7 +118,12 @@ GRange ==
 \* ideal OT: the evaluator obtains exactly the label its input bit selects
 EOTRecv ==
     /\ epc = "otrecv" /\ (N1 = 0 \/ otbox # <<>>)
-    /\ CASE otFault = "none" ->
+    /\ CASE DOMAIN otbox # n0..(NIn - 1) /\ otbox # <<>> ->
+              \* a deviating evaluator was served another range: it learns the labels it chooses and gives up
+              \E c \in [DOMAIN otbox -> {0, 1}] :
+                /\ sent' = sent \cup {otbox[w][c[w] + 1] : w \in DOMAIN otbox}
+                /\ epc' = "stall" /\ UNCHANGED <<act, phase, g, nx, sb>>
+         [] otFault = "none" ->
               /\ act' = act @@ [w \in n0..(NIn - 1) |-> otbox[w][inp[w] + 1]]
               /\ sent' = sent \cup {otbox[w][inp[w] + 1] : w \in n0..(NIn - 1)}
               /\ phase' = "eval" /\ g' = 1 /\ epc' = "eval"
